@@ -4,8 +4,8 @@
    mount_first / mount_split / hosts_first), each leaf on response_equiv and
    headers_view_equiv. *)
 From Coq Require Import List NArith Bool Arith Lia.
-From Baize Require Import Lib.Wire Lib.Order C02.Model Resp.Model C04.Model C04.Proofs C04.Apps.
-From Baize Require C08.Model C08.Properties C09.Model C09.Proofs C09.Properties.
+From Baize Require Import Lib.Wire Lib.Order C02.Model Resp.Model C04.Model C04.Proofs C04.Apps C04.StaticProofs.
+From Baize Require C07.Model C08.Model C08.Properties C09.Model C09.Proofs C09.Properties.
 Import ListNotations.
 
 (* ---------- specification vocabulary ---------- *)
@@ -17,10 +17,13 @@ Definition headers_equiv (hw ha : list header) : Prop :=
   (filter not_connection ha = hw /\
    forall h, In h ha -> not_connection h = false -> h = (lit "connection", lit "keep-alive")).
 
-(* both answers are responses with the same status, body and (modulo the above) headers *)
-Definition obs_equiv (w a : obs) : Prop :=
+(* both answers are responses with the same status, body and (modulo the above) headers; where
+   Files / Pages take part ([http_ok]): or both raise the same HTTPException (their 404, the 400
+   of Pages), which no application of the tree catches *)
+Definition obs_equiv (http_ok : bool) (w a : obs) : Prop :=
   match w, a with
   | OResp sw hw bw, OResp sa ha ba => sw = sa /\ bw = ba /\ headers_equiv hw ha
+  | OHttp sw, OHttp sa => http_ok = true /\ sw = sa
   | _, _ => False
   end.
 
@@ -29,7 +32,8 @@ Inductive all_leaves {P : Type} (Q : (seen -> recipe) -> Prop) : app P -> Prop :
 | al_leaf view : Q view -> all_leaves Q (Leaf view)
 | al_route routes : (forall e, In e routes -> all_leaves Q (snd e)) -> all_leaves Q (Route routes)
 | al_mount routes : (forall e, In e routes -> all_leaves Q (snd e)) -> all_leaves Q (Mount routes)
-| al_hosts table : (forall e, In e table -> all_leaves Q (snd e)) -> all_leaves Q (HostSwitch table).
+| al_hosts table : (forall e, In e table -> all_leaves Q (snd e)) -> all_leaves Q (HostSwitch table)
+| al_static k c e : C07.Model.wf_dir (sc_dir c) = true -> all_leaves Q (StaticLeaf k c e).
 
 (* whatever it sees, a view answers with a recipe response_equiv speaks about *)
 Definition comparable_view (view : seen -> recipe) : Prop := forall v, comparable (view v).
@@ -43,6 +47,7 @@ Section AppInd.
   Hypothesis HRoute : forall routes, Forall (fun e => Q (snd e)) routes -> Q (Route routes).
   Hypothesis HMount : forall routes, Forall (fun e => Q (snd e)) routes -> Q (Mount routes).
   Hypothesis HHosts : forall table, Forall (fun e => Q (snd e)) table -> Q (HostSwitch table).
+  Hypothesis HStatic : forall k c e, Q (StaticLeaf k c e).
 
   Fixpoint app_ind' (a : app P) : Q a :=
     match a with
@@ -68,13 +73,20 @@ Section AppInd.
               | [] => Forall_nil _
               | e :: r => Forall_cons e (app_ind' (snd e)) (go r)
               end) table)
+    | StaticLeaf k c e => HStatic k c e
     end.
 End AppInd.
 
 (* ---------- leaves ---------- *)
 
-Lemma resp_obs_equiv (r : recipe) : comparable r ->
-  obs_equiv (obs_of (wsgi_response r)) (obs_of (asgi_response r)).
+Lemma obs_equiv_mono (b1 b2 : bool) (w a : obs) : (b1 = true -> b2 = true) -> obs_equiv b1 w a -> obs_equiv b2 w a.
+Proof.
+  intros Hb. destruct w, a; cbn [obs_equiv]; try exact (fun H => H).
+  intros [H1 H2]. split; [exact (Hb H1)|exact H2].
+Qed.
+
+Lemma resp_obs_equiv (b : bool) (r : recipe) : comparable r ->
+  obs_equiv b (obs_of (wsgi_response r)) (obs_of (asgi_response r)).
 Proof.
   intros Hc. destruct (response_equiv_proof r Hc) as (st & hw & ha & body & Hw & Ha & Hh).
   rewrite Hw, Ha. cbn [obs_of obs_equiv]. split; [reflexivity|]. split; [reflexivity|].
@@ -201,6 +213,16 @@ Qed.
 
 (* ---------- the theorem ---------- *)
 
+(* what a static leaf needs of the request and of the state the dispatchers left (C04/StaticProofs.v,
+   static_equiv): request header names distinct, a scheme URL(...) knows, root path ++ path ASCII
+   (the text a WSGI gateway and an ASGI server present alike) *)
+Definition static_ready (rq : areq) (s : state) : Prop :=
+  distinct_names (aq_request rq) /\ known_scheme rq /\ ascii (C09.Proofs.full (s_req s)).
+
+Lemma has_static_in {P K : Type} (l : list (K * app P)) (e : K * app P) :
+  In e l -> has_static (snd e) = true -> existsb (fun e => has_static (snd e)) l = true.
+Proof. intros Hin H. apply existsb_exists. exists e. split; assumption. Qed.
+
 Section Equiv.
   Context {P : Type}.
   Variable fullmatch : P -> bytes -> bool.
@@ -213,13 +235,14 @@ Section Equiv.
 
   Lemma run_equiv : forall a : app P,
     all_leaves comparable_view a ->
-    forall s, live s -> obs_equiv (run_wsgi fullmatch lim rq a s) (run_asgi fullmatch lim rq a s).
+    forall s, live s -> (has_static a = true -> static_ready rq s) ->
+    obs_equiv (has_static a) (run_wsgi fullmatch lim rq a s) (run_asgi fullmatch lim rq a s).
   Proof.
-    induction a as [view|routes IH|routes IH|table IH] using app_ind'; intros Hall s [Hl [p Hp]];
+    induction a as [view|routes IH|routes IH|table IH|k c e] using app_ind'; intros Hall s [Hl [p Hp]] Hst;
       unfold C09.Model.str in *.
     - (* Leaf *)
       cbn [run_wsgi run_asgi]. rewrite (seen_equiv rq s Hnames).
-      inversion Hall as [v Hq| | |]; subst. apply resp_obs_equiv. apply Hq.
+      inversion Hall as [v Hq| | | |]; subst. apply resp_obs_equiv. apply Hq.
     - (* Route *)
       cbn [run_wsgi run_asgi]. rewrite Hl, Hp.
       destruct (C08.Properties.router_dispatch lim (map fst routes) p) as (E & _ & _ & Hran).
@@ -227,10 +250,13 @@ Section Equiv.
       + apply resp_obs_equiv. exact I.
       + rewrite !call_map.
         destruct (nth_error routes i) as [e|] eqn:En.
-        * inversion Hall as [|rs Hq| |]; subst.
+        * inversion Hall as [|rs Hq| | |]; subst.
           pose proof (nth_error_In _ _ En) as Hin.
-          rewrite Forall_forall in IH. apply (IH e Hin (Hq e Hin)).
-          split; [exact Hl|]. exists p. exact Hp.
+          rewrite Forall_forall in IH.
+          apply (obs_equiv_mono (has_static (snd e))); [exact (has_static_in routes e Hin)|].
+          apply (IH e Hin (Hq e Hin)).
+          -- split; [exact Hl|]. exists p. exact Hp.
+          -- intro Hs. apply Hst. exact (has_static_in routes e Hin Hs).
         * exfalso. pose proof (proj1 (Hran i ps) eq_refl) as Hs.
           pose proof (C08.Properties.first_match lim (map fst routes) p) as Hf. rewrite Hs in Hf.
           destruct Hf as (segs & Hn & _). rewrite nth_error_map, En in Hn. discriminate.
@@ -239,15 +265,19 @@ Section Equiv.
       set (t := index_from (fun k => C09.Model.Leaf (N.of_nat k)) 0 routes).
       destruct (C09.Model.dispatch C09.Model.ASGI t (s_req s)) as [prefix sub r'| |e] eqn:Ed.
       + destruct (C09.Properties.mount_split C09.Model.ASGI t (s_req s) prefix sub r' Ed)
-          as (_ & (p' & Hp' & _ & _) & _ & Hl').
+          as (_ & (p' & Hp' & _ & _) & Hfull & Hl').
         apply C09.Proofs.dispatch_call in Ed as (Hs & _ & _).
         destruct (proj1 (proj1 (C09.Properties.mount_first _ t _) prefix sub) Hs) as (i & Hn & _).
         apply index_from_nth in Hn as (e & En & ->). cbn [Nat.add]. rewrite !call_map, Nnat.Nat2N.id.
         unfold bytes, C09.Model.str in *. rewrite En.
-        inversion Hall as [| |rs Hq|]; subst.
+        inversion Hall as [| |rs Hq| |]; subst.
         pose proof (nth_error_In _ _ En) as Hin.
-        rewrite Forall_forall in IH. apply (IH e Hin (Hq e Hin)).
-        split; cbn [s_req]; [rewrite Hl'; exact Hl|]. exists p'. exact Hp'.
+        rewrite Forall_forall in IH.
+        apply (obs_equiv_mono (has_static (snd e))); [exact (has_static_in routes e Hin)|].
+        apply (IH e Hin (Hq e Hin)).
+        * split; cbn [s_req]; [rewrite Hl'; exact Hl|]. exists p'. exact Hp'.
+        * intro Hs'. destruct (Hst (has_static_in routes e Hin Hs')) as (H1 & H2 & H3).
+          split; [exact H1|]. split; [exact H2|]. cbn [s_req]. rewrite Hfull. exact H3.
       + apply resp_obs_equiv. exact I.
       + exfalso. unfold C09.Model.dispatch, C09.Model.read_path, C09.Model.asgi_read_path in Ed. rewrite Hl, Hp in Ed.
         destruct (C09.Model.search t p) as [[q b]|]; discriminate.
@@ -258,18 +288,30 @@ Section Equiv.
       + apply (proj1 (C09.Properties.hosts_first _ _ fullmatch t _)) in Eh as (i & pat & Hn & _).
         apply index_from_nth in Hn as (e & En & ->). cbn [Nat.add]. rewrite !call_map, Nnat.Nat2N.id.
         unfold bytes, C09.Model.str in *. rewrite En.
-        inversion Hall as [| | |tb Hq]; subst.
+        inversion Hall as [| | |tb Hq|]; subst.
         pose proof (nth_error_In _ _ En) as Hin.
-        rewrite Forall_forall in IH. apply (IH e Hin (Hq e Hin)).
-        split; [exact Hl|]. exists p. exact Hp.
+        rewrite Forall_forall in IH.
+        apply (obs_equiv_mono (has_static (snd e))); [exact (has_static_in table e Hin)|].
+        apply (IH e Hin (Hq e Hin)).
+        * split; [exact Hl|]. exists p. exact Hp.
+        * intro Hs. apply Hst. exact (has_static_in table e Hin Hs).
       + apply resp_obs_equiv. exact I.
+    - (* Files / Pages *)
+      cbn [run_wsgi run_asgi has_static].
+      inversion Hall as [| | | |k' c' e' Hwf]; subst.
+      destruct (Hst eq_refl) as (Hd & Hk & Ha).
+      destruct (static_equiv_proof k c e rq s Hwf Hnames Hd Hk Hl (ex_intro _ p Hp) Ha) as [Heq Hans].
+      rewrite Heq. destruct (static_asgi k c e rq s); cbn [answered] in Hans; try contradiction; cbn [obs_equiv].
+      + split; [reflexivity|]. split; [reflexivity|]. left. reflexivity.
+      + split; reflexivity.
   Qed.
 
   Theorem app_equiv_proof (a : app P) :
     all_leaves comparable_view a ->
-    obs_equiv (serve_wsgi fullmatch lim rq a) (serve_asgi fullmatch lim rq a).
+    (has_static a = true -> static_ready rq (init rq)) ->
+    obs_equiv (has_static a) (serve_wsgi fullmatch lim rq a) (serve_asgi fullmatch lim rq a).
   Proof.
-    intros Hall. unfold serve_wsgi, serve_asgi. apply run_equiv; [exact Hall|].
+    intros Hall Hst. unfold serve_wsgi, serve_asgi. apply run_equiv; [exact Hall| |exact Hst].
     split; [reflexivity|]. exists (aq_path rq). reflexivity.
   Qed.
 End Equiv.
